@@ -502,7 +502,11 @@ impl SubscribeBuilder {
                     // wait ack from peer
                     rx.await.map_err(|_| SendPacketError::Disconnected).map(Ack::subscribe)
                 }
-                Err(err) => Err(SendPacketError::Encode(err)),
+                Err(err) => {
+                    // nothing was written, so nothing will be acknowledged
+                    self.shared.cancel_response(idx);
+                    Err(SendPacketError::Encode(err))
+                }
             }
         }
     }
@@ -584,7 +588,11 @@ impl UnsubscribeBuilder {
                     // wait ack from peer
                     rx.await.map_err(|_| SendPacketError::Disconnected).map(|_| ())
                 }
-                Err(err) => Err(SendPacketError::Encode(err)),
+                Err(err) => {
+                    // nothing was written, so nothing will be acknowledged
+                    shared.cancel_response(idx);
+                    Err(SendPacketError::Encode(err))
+                }
             }
         }
     }
